@@ -105,8 +105,10 @@ impl ArrivalBound for ArrivalCurvePrefix {
 
     fn steps_iter<'a>(&'a self) -> Box<dyn Iterator<Item = Duration> + 'a> {
         let horizon = self.horizon;
+        // without any steps there is nothing to repeat (an unbounded flat_map over nothing would never return)
+        let cycles = if self.steps.is_empty() { 0 } else { u64::MAX };
         Box::new(
-            iter::once(Duration::zero()).chain((0..).flat_map(move |cycle: u64| {
+            iter::once(Duration::zero()).chain((0..cycles).flat_map(move |cycle: u64| {
                 self.steps
                     .iter()
                     .map(move |(offset, _njobs)| *offset + horizon * cycle)
